@@ -6,8 +6,9 @@
    NOT yet proved: the corresponding statements for hint_bit_pack/unpack (canonical hint
    sections) and their composition into sig_decode/sig_encode; those are decided by the codec
    streams (model vs code vs FIPS Alg 20/21, malformed-hint grammar, re-encode on the real code). *)
+Require Import List ZArith. Import ListNotations.
 Require Import F204.Base.Util F204.Base.Mach F204.Gen.Params F204.Impl.Helpers F204.Impl.Conversion F204.Impl.Encodings
-  F204.Proofs.BitPackProofs.
+  F204.Proofs.BitPackProofs F204.Proofs.HintProofs F204.Proofs.DecodeRefine.
 Open Scope Z_scope.
 
 Theorem C08_bit_pack_then_unpack : forall a b w,
@@ -53,6 +54,24 @@ Proof.
   intros P [<- | [<- | [<- | []]]]; vm_compute; repeat split; congruence.
 Qed.
 
+(* the decoders accept exactly what FIPS 204 Algorithms 21, 23, 27 accept, and return their outputs:
+   every malformed hint section the property names (unsorted or repeated indices, counts that
+   decrease or exceed omega, non-zero unused bytes) is what HintBitUnpack (Spec/SpecConv.v) answers
+   "bottom" for, and hint_bit_unpack answers Err Malformed (never Panic) exactly then *)
+Theorem C08_hint_unpack_is_FIPS204 : forall (k : nat) omega y,
+  0 <= omega -> 1 <= omega + Z.of_nat k < 256 -> zlen y = omega + Z.of_nat k -> HintProofs.bytes_ok y ->
+  hint_bit_unpack k omega y = res_of_opt (SpecConv.HintBitUnpack omega k y).
+Proof. exact hint_bit_unpack_spec. Qed.
+Theorem C08_sig_decode_is_FIPS204 : forall P sigma, In P all_params -> bytes_ok sigma -> zlen sigma = p_sig_len P ->
+  sig_decode P sigma = sig_decode_result (SpecConv.sigDecode P sigma).
+Proof. exact sig_decode_spec. Qed.
+Theorem C08_pk_decode_is_FIPS204 : forall P pk, In P all_params -> bytes_ok pk -> zlen pk = p_pk_len P ->
+  pk_decode P pk = Ok (SpecConv.pkDecode (p_k P) pk).
+Proof. exact pk_decode_spec. Qed.
+
+Print Assumptions C08_hint_unpack_is_FIPS204.
+Print Assumptions C08_sig_decode_is_FIPS204.
+Print Assumptions C08_pk_decode_is_FIPS204.
 Print Assumptions C08_bit_pack_then_unpack.
 Print Assumptions C08_bit_unpack_then_pack.
 Print Assumptions C08_bit_unpack_injective.
